@@ -6,7 +6,7 @@
    implementation is compared with the reader model on every document of the R-suites. *)
 From Coq Require Import List Bool String ZArith.
 From FM Require Import Base.Result Model.Ast Model.FM Model.PFM Format.Json Format.Glencoe Format.Xml Format.Uvl Format.Afm
-     Proofs.JsonFacts Proofs.GlencoeFacts Proofs.FideFacts Proofs.FamaFacts Proofs.UvlFacts Proofs.AfmFacts.
+     Proofs.JsonFacts Proofs.GlencoeFacts Proofs.FideFacts Proofs.FamaFacts Proofs.UvlFacts Proofs.AfmFacts Proofs.NonEmptyFacts.
 Import ListNotations.
 Local Open Scope list_scope.
 
@@ -16,6 +16,10 @@ Print Assumptions C02_json_ptrs.
 Theorem C02_json_ast : forall d pm, json_read d = Ok pm -> forallb (fun c => node_shape_ok (c_ast c)) (pctcs pm) = true.
 Proof. exact json_read_ctc_shape. Qed.
 Print Assumptions C02_json_ast.
+(* after the fix of the reader ("children": [] is rejected): for EVERY document, no hypothesis on it *)
+Theorem C02_json_nonempty : forall d pm, json_read d = Ok pm -> rels_nonempty_p (proot pm) = true.
+Proof. exact json_read_nonempty. Qed.
+Print Assumptions C02_json_nonempty.
 
 Theorem C02_glencoe_ptrs : forall d pm, glencoe_read d = Ok pm -> ptr_wf pm = true.
 Proof. exact glencoe_read_ptr_wf. Qed.
@@ -45,6 +49,11 @@ Print Assumptions C02_fama_ptrs.
 Theorem C02_fama_ast : forall x pm, fama_read x = Ok pm -> forallb (fun c => node_shape_ok (c_ast c)) (pctcs pm) = true.
 Proof. exact fama_read_ctc_shape. Qed.
 Print Assumptions C02_fama_ast.
+(* after the fix of the reader (a binaryRelation / setRelation without child features is rejected): for EVERY
+   document, no hypothesis on it *)
+Theorem C02_fama_nonempty : forall x pm, fama_read x = Ok pm -> rels_nonempty_p (proot pm) = true.
+Proof. exact fama_read_nonempty. Qed.
+Print Assumptions C02_fama_nonempty.
 
 Theorem C02_uvl_ptrs : forall d pm, uvl_read_cst d = Ok pm -> ptr_wf pm = true.
 Proof. exact uvl_read_ptr_wf. Qed.
@@ -58,6 +67,27 @@ Theorem C02_uvl_ast : forall d pm,
   uvl_read_cst d = Ok pm -> forallb (fun c => node_shape_ok' (c_ast c)) (pctcs pm) = true.
 Proof. exact uvl_read_ctc_shape. Qed.
 Print Assumptions C02_uvl_ast.
+(* every relation non-empty.  The JSON, Glencoe, FeatureIDE and FaMa statements above have no hypothesis: their
+   document types allow a relation without children and the readers reject it (three of them since the fix: commits).
+   The UVL and AFM parse-tree TYPES allow an empty group, the grammars do not (feature+): the hypothesis says the parse
+   tree has none ([ugroups_ne_weak] asks it only of the groups that become ONE relation), the harness checks it on every
+   tree its parser conversion produces, the writers' trees satisfy it, and without it the statements are false of the
+   reader models (uvl_read_empty_group_false, afm_read_empty_group_false). *)
+Theorem C02_uvl_nonempty : forall d pm,
+  (match d_root d with Some r => ugroups_ne_weak r | None => true end) = true ->
+  uvl_read_cst d = Ok pm -> rels_nonempty_p (proot pm) = true.
+Proof. exact uvl_read_nonempty_weak. Qed.
+Print Assumptions C02_uvl_nonempty.
+Theorem C02_afm_nonempty : forall d pm, aitems_ne d = true -> afm_read_cst d = Ok pm -> rels_nonempty_p (proot pm) = true.
+Proof. exact afm_read_nonempty. Qed.
+Print Assumptions C02_afm_nonempty.
+Theorem C02_uvl_afm_writer_groups : forall m,
+  wf (root m) = true ->
+  (forall d, cst_of_fm m = Ok d -> (match d_root d with Some r => ugroups_ne r | None => true end) = true)
+  /\ (forall d, afm_cst m = Ok d -> aitems_ne d = true).
+Proof. intros m H. split; intros d Hd; [exact (uvl_cst_groups_ne_wf m d H Hd)|exact (afm_cst_items_ne_wf m d H Hd)]. Qed.
+Print Assumptions C02_uvl_afm_writer_groups.
+
 Theorem C02_uvl_writer_trees : forall n c, node_cst n = Ok c -> ucst_ok c = true.
 Proof. exact node_cst_ucst_ok. Qed.
 Print Assumptions C02_uvl_writer_trees.
